@@ -37,6 +37,10 @@ CLAIMED = {
    text="Proof of the budget clause and of the no-store-after-abort mechanism: incrementNodes never takes the node counter past a non-negative hard budget and is the only writer of it in the search package (frame of every other function under contract excludes it except through incrementNodes' callers, whose contracts carry the same bound), so a hard budget of N nodes is never exceeded along alphaBeta/quiescence recursion; in alphaBeta the fail-high store (tt.Insert) and the history update (FailHigh) that consume child results are reached only with the abort flag clear, for every arrival time of the stop signal.",
    note="Not decided by this technique (stated in DESIGN.md): run-to-run reproducibility and soft-limit/hard-budget equivalence are two-run hyperproperties of the whole engine state. Observation recorded in DESIGN.md: the two final stores of alphaBeta can be reached with the abort flag set after an aborted null-move search when no move is playable (the stored value does not depend on the aborted child).",
    ref="DESIGN.md section 5 C08"),
+ "C09": dict(
+   text="Proof for every valid, e.p.-normalised position: IsStalemate (king not in check) and IsCheckmate (king in check) are each shown sound (result true implies that an arbitrary fixed 16-bit move is not legal in the rule specification: loop invariants over the per-piece bit loops carrying 'no move from a processed square is legal', the general chess lemma singleCheckReplies - in single check a legal non-king move captures the checker or interposes, in double check only the king moves - and stepping-stone assertions) and complete (every `return false` names a concrete legal witness move: 12 return sites in IsStalemate, 4 in IsCheckmate). Attackers and Block are proved equal to set-valued specification functions (attackersTo, blockSet). Quick tier: IsStalemate soundness, Attackers, Block and all lemmas; thorough tier adds IsStalemate's witnesses and the whole of IsCheckmate (about 20 min). IsCheckmate's soundness obligation fails exactly when an en-passant capture could interpose on the check line: known finding F6 (input class carved out, every other input proved).",
+   note="Validity is the property's own quantifier (validPos + epNormal); F6 positions satisfy it but cannot arise in play. Callers (search.quiescence) reach these functions through frame-only views. Heavy obligations take 100-950 s of solver time in the thorough tier.",
+   ref="DESIGN.md section 5 C09"),
  "C10": dict(
    text="Proof of the counting clause: Threefold returns min(3, 1 + number of earlier history entries at distances 4, 6, 8, ... equal to the current hash) for histories of any length (loop invariant against an inductively specified count); ResetHash leaves a one-entry history; MakeMove/MakeNullMove push exactly one entry and keep earlier entries (history clauses).",
    note="Equality of hashes stands for equality of positions modulo Zobrist collisions (probabilistic, cannot be proved). That positions cannot recur at distance 2 and that entries at odd distances have the other side to move are not mechanised in this revision. axioms occUnfold/occRange are the inductive definition of the count (trusted).",
